@@ -20,7 +20,7 @@ TEXT = {
  "C10": ("exploration", "property value histories (assign/extend/clear through scalars, lists, tuples, numpy arrays), refused candidates (other type, mixed with the odd element at any position, bool/int confusion), dict-style section API, restarts; typed-list reference model", "4 C10"),
  "C11": ("fault_enumeration", "read-only sessions on arbitrary generated files firing every kind of mutator with the simulated disk's write log armed (zero writes, bytes identical, reads equal the model and the RW view); overwrite / read-write / missing-file semantics; complete enumeration of the header grid (39 versions x 3 id states x 2 format tags x 3 modes) against a spec function transcribed from the property, random grid cells after random histories, and a real-file gate cross-check (refused ReadWrite open followed by a ReadOnly session on the same real path)", "4 C11"),
  "C12": ("fault_enumeration", "catalogue of (call site x class of invalid argument) cells, each instantiated against the current model at random points of valid histories; a call that raises must leave explicit+introspective walks (with timestamps) identical and the name reusable by a valid retry", "4 C12"),
- "C13": ("exploration", "section and source trees with names reused across levels and subtrees, metadata/source links from every kind; find_* from every root with every limit and filter vs. model BFS, find_related; parent / parent_source / parent_block asked on handles of every provenance (created, looked up, via link, found, after restart); referring_* vs. inverse of the model's link relation", "4 C13"),
+ "C13": ("exploration", "section and source trees with names reused across levels and subtrees, metadata/source links from every kind; find_* from every root with every limit and filter vs. model BFS, find_related, searches over a tree that holds a kept-id copy of one of its subtrees; parent / parent_source / parent_block asked on handles of every provenance (created, looked up, via link, found, after restart); referring_* vs. inverse of the model's link relation", "4 C13"),
  "C15": ("exploration", "calibration histories (set / change / clear coefficients and origin, raw writes while calibrated) on numeric arrays of every element type; every read path (whole, element, slices, np.array, read_direct, iteration, index-mode views incl. ones obtained earlier, and - via a metamorphic check - tag, multi-tag and feature regions and data-coordinate views) must equal the Horner polynomial of the model's raw values in double precision; the stored raw dataset is peeked after every op", "4 C15"),
  "C16": ("exploration", "table histories over schemas of 1-6 typed columns: four creation variants, append_rows, append_column, write_rows / write_column / write_cell by index and name (first and last included), units, refused writes, restarts right after structural changes; list-of-typed-columns reference model; every read path compared", "4 C16"),
  "C18": ("fault_enumeration", "old-format files (1.0.x / 1.1.x / 1.2.0, with and without file id, compound property layout with per-value extras, alias range dimensions) produced from generated content; uninterrupted upgrade, then a kill at every write-mode open of the upgrade tool followed by a re-run (and sampled double kills), compared with the uninterrupted result and with what the old readers showed; no-op upgrades must not write a byte", "4 C18"),
